@@ -386,6 +386,10 @@ impl Spec for C08 {
             ("empty-area-at-start", vec![(0x1000, 0), (0x1000, 0x20)]),
             // address 0 is an address like any other once an area is mapped there
             ("starts-at-0", vec![(0, 0x20)]),
+            // a second area whose LAST byte would be the first byte of the first area: creating
+            // it is refused on a correct tree (then this layout does not exist); where it is
+            // accepted, one address has two backing stores and byte / multi-byte accesses disagree
+            ("one-byte-overlap-attempt", vec![(0x2000, 0x20), (0x1FE1, 0x20)]),
         ];
         let mut out = vec![];
         for (n, l) in layouts {
